@@ -276,6 +276,9 @@ func (ts *TypeSys) sortOf(t types.Type) string {
 	case *types.Tuple:
 		return SInt
 	case *types.Named:
+		if u == typeTagType {
+			return "TypeTag"
+		}
 		if isIterSeq(u) {
 			return ts.iterSort(u)
 		}
